@@ -23,9 +23,40 @@ def _confirm(prop):
             [sys.executable, "-m", "nslmc.cli", prop, "--replay", path, "--quiet"],
             cwd=VERIF, env=env, stdout=subprocess.PIPE, stderr=subprocess.STDOUT, timeout=600,
         )
-        return r.returncode == 1
+        if r.returncode == 1:
+            return True
+        # the case alone does not fail in a fresh process: it may need the history of its job (process-global state in the
+        # code under test).  Jobs are hermetic, so re-executing the whole job in a fresh process replays that history exactly.
+        rec = json.load(open(path))
+        if "job" not in rec:
+            return False
+        r = subprocess.run(
+            [sys.executable, "-m", "nslmc.cli", prop, "--rejob", path, "--quiet"],
+            cwd=VERIF, env=env, stdout=subprocess.PIPE, stderr=subprocess.STDOUT, timeout=3000,
+        )
+        if r.returncode == 1:
+            rec["history_dependent"] = "fails only after the earlier cases of its job; replay with ./check %s --rejob <this file>" % prop
+            json.dump(rec, open(path, "w"), indent=1, default=str)
+            return True
+        return False
 
     return confirm
+
+
+def _tuplify(x):
+    if isinstance(x, list):
+        return tuple(_tuplify(y) for y in x)
+    return x
+
+
+def _find_key(o, key):
+    if isinstance(o, dict):
+        if o.get("key") == key:
+            return True
+        return any(_find_key(v, key) for v in o.values())
+    if isinstance(o, (list, tuple)):
+        return any(_find_key(v, key) for v in o)
+    return False
 
 
 def main(argv=None):
@@ -33,6 +64,7 @@ def main(argv=None):
     ap.add_argument("prop")
     ap.add_argument("--tier", default=os.environ.get("VERIF_TIER", "quick"), choices=["quick", "thorough"])
     ap.add_argument("--replay")
+    ap.add_argument("--rejob")
     ap.add_argument("--quiet", action="store_true")
     a = ap.parse_args(argv)
     prop = a.prop.upper()
@@ -48,6 +80,19 @@ def main(argv=None):
     t0 = time.time()
     snapshot.activate()
     mod = importlib.import_module(f"nslmc.props.{prop.lower()}")
+    if a.rejob:
+        rec = json.load(open(a.rejob))
+        modname, fname = rec["job"]["fn"].split(":")
+        fn = getattr(importlib.import_module(modname), fname)
+        arg = _tuplify(rec["job"]["arg"])
+        os.environ["NSLMC_INPROCESS"] = "1"
+        from . import pool
+        with pool.quiet():
+            out = fn(arg)
+        hit = _find_key(out, rec["key"])
+        if not a.quiet:
+            print("REPRODUCED (history-dependent)" if hit else "NOT REPRODUCED")
+        return 1 if hit else 0
     if a.replay:
         rec = json.load(open(a.replay))
         reproduced = mod.replay(rec, verbose=not a.quiet)
